@@ -510,7 +510,11 @@ func (t *Teamserver) Start() {
 		// check if the agent has any links
 		AgentsIDs := t.LinksOf(Agent)
 		for _, AgentID := range AgentsIDs {
-			Agent.Pivots.Links = append(Agent.Pivots.Links, t.AgentInstance(AgentID))
+			// a link row can exist without its agent (the teamserver was stopped
+			// between the two writes, or the linked agent is no longer active)
+			if Link := t.AgentInstance(AgentID); Link != nil {
+				Agent.Pivots.Links = append(Agent.Pivots.Links, Link)
+			}
 		}
 	}
 
